@@ -3,11 +3,15 @@ package main
 import (
 	"sync/atomic"
 
+	"cvssmc/internal/dump"
 	"cvssmc/internal/ev"
 	"cvssmc/internal/lang"
 	"cvssmc/internal/lib"
 	"cvssmc/internal/oracle"
 	"cvssmc/internal/spec"
+
+	"github.com/goark/go-cvss/v3/report"
+	"golang.org/x/text/language"
 )
 
 // enumV3Base: all 2 x 2,592 base vectors through the three decoders.
@@ -160,6 +164,103 @@ func viewsAfterInstalments(r *ev.Run) {
 		}
 	}
 	r.Add("instalment_decodes", n)
+	viewsTakenBeforeDecode(r)
+}
+
+// viewsTakenBeforeDecode: (i) the views are taken from the constructor result, then the owner
+// decodes the vector: the views taken earlier must show the decoded vector like independent
+// lower-level decodes do; (ii) optional fields are assigned before Decode and the vector spells
+// those metrics out as Not Defined; (iii) v3: the embedded reports of a report equal the reports
+// built from independent lower-level decodes.
+func viewsTakenBeforeDecode(r *ev.Run) {
+	var n int64
+	for _, ver := range []int{3, 2} {
+		for _, bg := range scoreBackgrounds(ver) {
+			for level := 1; level < 3; level++ {
+				full := lang.Project(ver, level, bg.tok)
+				s := canonicalWritten(ver, level, bg.ver, full)
+				// (i)
+				d := lib.New(ver, level)
+				var early []any
+				for lv := 0; lv < level; lv++ {
+					early = append(early, lib.Sub(d, lv))
+				}
+				obj, err, _ := lib.Decode(d, s)
+				n++
+				if err == nil && obj != nil {
+					for lv := 0; lv < level; lv++ {
+						ps := canonicalWritten(ver, lv, bg.ver, lang.Project(ver, lv, full))
+						ind, ierr, _ := lib.DecodeNew(ver, lv, ps)
+						if ierr != nil || ind == nil {
+							continue
+						}
+						if a, b := lib.Observe(early[lv]), lib.Observe(ind); a != b {
+							r.Violate(ev.Violation{Kind: "view-taken-before-decode-differs", Case: map[string]any{"cvss": ver, "decoder": spec.LevelNames[level], "history": []string{"d := constructor result", "v := the " + spec.LevelNames[lv] + " view of d", "d.Decode(" + s + ")", "query v"}, "projection": ps},
+								Observed: a.String(), Expected: b.String() + "  (independent decode of the projection)"})
+						}
+					}
+				}
+				// (ii)
+				for _, m := range spec.UpTo(ver, level) {
+					if m.Level == 0 || (ver == 2 && !lang.GroupPresent(full, m.Level)) {
+						continue
+					}
+					en := lib.EnumOf(ver, m.Name)
+					d := lib.New(ver, level)
+					lib.SetField(d, m.Name, en.Consts[len(en.Consts)-1-boolInt(m.Codes[len(m.Codes)-1].ND)])
+					t := copyTok(full)
+					t[m.Name] = m.NDCode()
+					st := canonicalWritten(ver, level, bg.ver, t)
+					obj, err, _ := lib.Decode(d, st)
+					n++
+					if err != nil || obj == nil {
+						continue
+					}
+					c := &dcase{ver: ver, level: level, s: st, tok: t, verLabel: bg.ver}
+					c2 := *c
+					checkViews(r, &c2, obj)
+				}
+				// (iii)
+				if ver == 3 {
+					if o, err, _ := lib.DecodeNew(3, level, s); err == nil && o != nil {
+						outer := reportOf(o, language.English)
+						for lv := 0; lv < level; lv++ {
+							ps := canonicalWritten(3, lv, bg.ver, lang.Project(3, lv, full))
+							ind, ierr, _ := lib.DecodeNew(3, lv, ps)
+							if ierr != nil || ind == nil {
+								continue
+							}
+							n++
+							if a, b := dump.Of(embeddedReport(outer, level-lv)), dump.Of(reportOf(ind, language.English)); a != b {
+								r.Violate(ev.Violation{Kind: "embedded-report-differs-from-lower-level-report", Case: map[string]any{"vector": s, "report_level": spec.LevelNames[level], "embedded": spec.LevelNames[lv], "projection": ps}, Observed: a, Expected: b})
+							}
+						}
+					}
+				}
+			}
+		}
+	}
+	r.Add("view_histories", n)
+}
+
+func boolInt(b bool) int {
+	if b {
+		return 1
+	}
+	return 0
+}
+
+// embeddedReport descends `steps` levels into the embedded reports.
+func embeddedReport(rep any, steps int) any {
+	for ; steps > 0; steps-- {
+		switch x := rep.(type) {
+		case *report.EnvironmentalReport:
+			rep = x.TemporalReport
+		case *report.TemporalReport:
+			rep = x.BaseReport
+		}
+	}
+	return rep
 }
 
 func init() {
